@@ -2934,7 +2934,11 @@ class Transport(threading.Thread, ClosingContextManager):
         # Packet is a count followed by that many key-string to possibly-bytes
         # pairs.
         extensions = {}
-        for _ in range(msg.get_int()):
+        count = msg.get_int()
+        # each pair takes at least 8 bytes (two string lengths)
+        if count * 8 > len(msg.get_remainder()):
+            raise SSHException("Invalid EXT_INFO: too many extensions")
+        for _ in range(count):
             name = msg.get_text()
             value = msg.get_string()
             extensions[name] = value
